@@ -139,13 +139,65 @@ REGISTRIES = [
 ]
 
 
+def _is_reset_stmt(st):
+    return isinstance(st, ast.Expr) and isinstance(st.value, ast.Call) \
+        and ast.unparse(st.value.func) in ("reset", "cache.reset", "apischema.cache.reset")
+
+
 def _calls_reset(fn):
+    """the reset call must be a top-level statement of the body: a conditional reset is not a reset"""
+    return any(_is_reset_stmt(st) for st in fn.body)
+
+
+def _mutation_reset(fn, var):
+    """in-place mutations of `var[...]` (directly or through a local alias `x = var[...]`) in fn: returns
+    (has_mutation, every mutation is followed by a reset in its own block or an enclosing one)"""
+    aliases = set()
     for n in ast.walk(fn):
-        if isinstance(n, ast.Call):
-            s = ast.unparse(n.func)
-            if s in ("reset", "cache.reset", "apischema.cache.reset"):
+        if isinstance(n, ast.Assign) and len(n.targets) == 1 and isinstance(n.targets[0], ast.Name) \
+                and isinstance(n.value, ast.Subscript) and ast.unparse(n.value.value) == var:
+            aliases.add(n.targets[0].id)
+    MUT = ("append", "extend", "add", "update", "insert", "setdefault", "remove", "clear", "pop")
+
+    def is_mut(n):
+        if isinstance(n, ast.Call) and isinstance(n.func, ast.Attribute) and n.func.attr in MUT:
+            tgt = n.func.value
+            if isinstance(tgt, ast.Subscript) and ast.unparse(tgt.value) == var:
                 return True
-    return False
+            if isinstance(tgt, ast.Name) and tgt.id in aliases:
+                return True
+        if isinstance(n, (ast.Assign, ast.AugAssign)):
+            tgts = n.targets if isinstance(n, ast.Assign) else [n.target]
+            for t in tgts:
+                if isinstance(t, ast.Subscript):
+                    b = t.value
+                    if isinstance(b, ast.Subscript) and ast.unparse(b.value) == var:
+                        return True
+                    if isinstance(b, ast.Name) and b.id in aliases:
+                        return True
+        return False
+
+    found, ok = [False], [True]
+
+    def visit_block(stmts, reset_after_outer):
+        for i, st in enumerate(stmts):
+            later_reset = reset_after_outer or any(_is_reset_stmt(x) for x in stmts[i + 1:])
+            if isinstance(st, (ast.FunctionDef, ast.AsyncFunctionDef, ast.ClassDef)):
+                continue    # nested definitions are analysed on their own
+            here = any(is_mut(n) for n in ast.walk(st)) if not isinstance(st, (ast.If, ast.For, ast.While, ast.With, ast.Try)) else False
+            if here:
+                found[0] = True
+                if not later_reset:
+                    ok[0] = False
+            for field in ("body", "orelse", "finalbody"):
+                sub = getattr(st, field, None)
+                if isinstance(sub, list) and sub and isinstance(sub[0], ast.stmt) and not isinstance(st, (ast.FunctionDef, ast.ClassDef)):
+                    visit_block(sub, later_reset)
+            if isinstance(st, ast.Try):
+                for h in st.handlers:
+                    visit_block(h.body, later_reset)
+    visit_block(fn.body, False)
+    return found[0], ok[0]
 
 
 def cache_wiring():
@@ -182,19 +234,8 @@ def cache_wiring():
         # in-place mutations through __getitem__: `var[k].append(...)`, `var[k][k2] = ...`, `var[k].x = ...`
         inplace_unreset = []
         for fn in [n for n in ast.walk(m) if isinstance(n, (ast.FunctionDef, ast.AsyncFunctionDef))]:
-            has = False
-            for n in ast.walk(fn):
-                if isinstance(n, ast.Call) and isinstance(n.func, ast.Attribute) \
-                        and n.func.attr in ("append", "extend", "add", "update", "insert", "setdefault", "remove", "clear") \
-                        and isinstance(n.func.value, ast.Subscript) and ast.unparse(n.func.value.value) == var:
-                    has = True
-                if isinstance(n, (ast.Assign, ast.AugAssign)):
-                    tgts = n.targets if isinstance(n, ast.Assign) else [n.target]
-                    for t in tgts:
-                        if isinstance(t, ast.Subscript) and isinstance(t.value, ast.Subscript) \
-                                and ast.unparse(t.value.value) == var:
-                            has = True
-            if has and not _calls_reset(fn):
+            has, ok = _mutation_reset(fn, var)
+            if has and not ok:
                 inplace_unreset.append(fn.name)
         rows.append((var, "set", bool(wrapped and set_resets)))
         rows.append((var, "del", bool(wrapped and del_resets)))
@@ -225,6 +266,41 @@ def cache_wiring():
     for sub in st[0].body:
         if isinstance(sub, ast.ClassDef):
             rows.append(("settings." + sub.name, "settings", cls_resets(sub)))
+    return rows
+
+
+REQUIRED_CACHED = [
+    ("deserialization/__init__.py", "deserialization_method_factory"),
+    ("serialization/__init__.py", "serialization_method_factory"),
+    ("recursion.py", "recursion_cache"),
+    ("recursion.py", "is_recursive"),
+    ("objects/getters.py", "object_fields"),
+]
+
+
+def cached_functions():
+    """memoised module-level functions must be registered with apischema.cache.cache (so that reset() clears them)"""
+    rows = []
+    for rel, name in REQUIRED_CACHED:
+        m = _mod(rel)
+        fns = [n for n in m.body if isinstance(n, ast.FunctionDef) and n.name == name]
+        if len(fns) != 1:
+            raise Cannot(f"{rel}: function {name} not found (caching of it cannot be read)")
+        decos = [ast.unparse(d) for d in fns[0].decorator_list]
+        if any(d == "cache" or d == "cache.cache" for d in decos):
+            rows.append((name, True))
+        elif any("lru_cache" in d or d.endswith("cache") or "cache(" in d for d in decos):
+            rows.append((name, False))
+        elif name == "recursion_cache":
+            raise Cannot("recursion.py: recursion_cache is no longer a @cache function")
+        else:
+            rows.append((name, True))     # not memoised at all: nothing can go stale
+    # the registration itself: cache() must append to _cached, reset() must clear every registered function
+    cm = _mod("cache.py")
+    src = {n.name: ast.unparse(n) for n in cm.body if isinstance(n, ast.FunctionDef)}
+    if "_cached.append(cached)" not in src.get("cache", "") or "cached.cache_clear()" not in src.get("reset", "") \
+            or "for cached in _cached" not in src.get("reset", ""):
+        raise Cannot("cache.py: cache()/reset() changed shape")
     return rows
 
 
@@ -274,6 +350,10 @@ def generate():
     if r:
         L.append("Definition cache_wiring : list (string * string * bool) := "
                  + core.coq_list([f"({cstr(a)}, {cstr(b)}, {core.coq_bool(c)})" for a, b, c in r]) + ".")
+    r = guard(cached_functions, "Definition cached_functions : list (string * bool) := [(\"unreadable\", false)].", "cached functions")
+    if r:
+        L.append("Definition cached_functions : list (string * bool) := "
+                 + core.coq_list([f"({cstr(a)}, {core.coq_bool(b)})" for a, b in r]) + ".")
     return "\n".join(L) + "\n", errs
 
 
